@@ -137,7 +137,7 @@ fn run_case(c: &Case, tier: Tier) -> Chk<Pass> {
         LinkArg::EmptyPd => ("[]".into(), Some(yui_link::Link::empty())),
         LinkArg::Unknown(s) | LinkArg::Malformed(s) => (s.clone(), None),
     };
-    if let LinkArg::Name(n) = &c.link { if pool_get(n).map(|d| d.ncross() > tier.pick(9, 10)).unwrap_or(true) { return discard("link-too-large") } }
+    if let LinkArg::Name(n) = &c.link { if pool_get(n).map(|d| d.ncross() > tier.pick(10, 11)).unwrap_or(true) { return discard("link-too-large") } }
     args.push(link_arg.clone());
     if let Some(t) = c.ctype { args.push("-t".into()); args.push(match t { CT_::Z => "Z", CT_::Q => "Q", CT_::F2 => "F2", CT_::F3 => "F3", CT_::Gauss => "Gauss" }.into()); }
     let cstr = match &c.cval { CVal::Absent => None, CVal::Int(a) => Some(a.to_string()), CVal::Pair(a, b) => Some(format!("{a},{b}")), CVal::Half => Some("1/2".into()), CVal::H => Some("H".into()), CVal::T0 => Some("0,T".into()), CVal::HT => Some("H,T".into()), CVal::H0 => Some("H,0".into()), CVal::Garbage(s) => Some(s.clone()) };
@@ -264,7 +264,7 @@ impl Prop for C20 {
     type Case = Case;
     const ID: &'static str = "C20";
     fn rule() -> String {
-        "case = argument vector: {kh, ckh} x -t {absent, Z, Q, F2, F3, Gauss} x -c {absent, integers, 'a,b', '1/2', H, '0,T', 'H,T', 'H,0', garbage} x -m x -r x link in {table names <= 9 crossings, PD JSON of generated diagrams, '[]', unknown names, malformed JSON / arity / negative numbers / path-like strings} x optional unknown flag; the binary built from /repo runs as a child process (120 s watchdog). \
+        "case = argument vector: {kh, ckh} x -t {absent, Z, Q, F2, F3, Gauss} x -c {absent, integers, 'a,b', '1/2', H, '0,T', 'H,T', 'H,0', garbage} x -m x -r x link in {table names <= 9 crossings (and, less often, the 10-crossing names 10_k, L10a_k, L10n_k; thorough: also the 11-crossing ones), PD JSON of generated diagrams, '[]', unknown names, malformed JSON / arity / negative numbers / path-like strings} x optional unknown flag; the binary built from /repo runs as a child process (120 s watchdog). \
          supported combinations: exit status 0 and the first table on stdout, parsed by a small grammar (cells separated by >= 2 blanks; Sym, Sym^r, (Sym/t), (Sym/t)^r joined by (+); '.'/'0' = zero), lists exactly the library's groups (rank and multiset of torsion strings, ring symbol) in the same (i,j) cells for kh and for ckh over fields; for ckh over Z and polynomial rings (whose generator counts depend on the engine's per-process elimination order) the graded Euler characteristic per q is compared; \
          unsupported combinations (kh over Z[H], Z[T], R[H,T]; Gauss in the default build; reduced with t != 0; 1/2 outside Q), malformed input, unknown names and unknown flags: non-zero exit, a message on stderr, no table on stdout; combinations the library itself rejects: either outcome, but never a table together with a failure status. \
          non-trivial = a supported combination with a non-default option, or an error case other than an unknown name".into()
@@ -272,11 +272,15 @@ impl Prop for C20 {
     fn assumptions() -> Vec<String> { vec!["PD JSON that parses but is not a valid diagram is not generated (from_pd_code documents no validation)".into()] }
     fn strategy(tier: Tier) -> BoxedStrategy<Case> {
         let names: Vec<String> = pool_names(tier.pick(8, 9));
+        // every name pattern of the shipped table occurs: n_k, Lna_k, Lnn_k, K11a_k, K11n_k with one- and two-digit crossing numbers
+        let big = tier.pick(10usize, 11usize);
+        let names_big: Vec<String> = pool_names(big).into_iter().filter(|n| pool_get(n).map(|d| d.n() >= 10).unwrap_or(false)).collect();
         let ctype = prop_oneof![2 => Just(None), 3 => Just(Some(CT_::Z)), 3 => Just(Some(CT_::Q)), 3 => Just(Some(CT_::F2)), 3 => Just(Some(CT_::F3)), 1 => Just(Some(CT_::Gauss))];
         let cval = prop_oneof![3 => Just(CVal::Absent), 3 => (-3i8..=3).prop_map(CVal::Int), 3 => (-2i8..=2, -2i8..=2).prop_map(|(a, b)| CVal::Pair(a, b)), 1 => Just(CVal::Half), 3 => Just(CVal::H), 2 => Just(CVal::T0), 2 => Just(CVal::HT), 1 => Just(CVal::H0),
             1 => prop::sample::select(vec!["abc", "1,", ",", "H,H,H", "2.5", "x", "1,2,3", "∞"]).prop_map(|s| CVal::Garbage(s.to_string()))];
         let link = prop_oneof![
             8 => prop::sample::select(names).prop_map(LinkArg::Name),
+            2 => prop::sample::select(names_big).prop_map(LinkArg::Name),
             4 => dspec_strategy(tier.pick(6, 8), 1).prop_map(LinkArg::Pd),
             1 => Just(LinkArg::EmptyPd),
             2 => prop::sample::select(vec!["foo", "3_99", "11_1", "K99a1", "L0a0", "0_1", "3_1.json", "../links/3_1", "/etc/passwd", ""]).prop_map(|s| LinkArg::Unknown(s.to_string())),
